@@ -256,6 +256,14 @@ LeakT(n, D) ==
 RECURSIVE StripCls(_)
 StripCls(n) == IF IsAtom(n) THEN [n EXCEPT !.o = 0] ELSE [n EXCEPT !.cls = "", !.o = 0, !.kids = [ i \in DOMAIN n.kids |-> StripCls(n.kids[i]) ]]
 
+(* ---- C09: a model and the object assume() / reduce() returned for it are independent ------------------------------ *)
+\* Calls that trigger the known overwrite (D2) change the object they are called on, and nothing else: poking the result leaves the
+\* source as it was, poking the source leaves the result as it was.  (negate() is recorded but not judged: on the pinned tree its
+\* result keeps the un-negated sub-propositions of the source as the same objects, so there the known overwrite is seen through both.)
+EvDerivePoke(e) ==
+  IF e.kind = "negate" THEN {}
+  ELSE Fail("store_unchanged", e.source_after = e.source_before /\ e.result_after = e.result_before)
+
 (* ---- C09: two models built from the same sub-proposition objects ------------------------------------ *)
 \* the object index o of the projection numbers Python objects in order of first appearance; with deliberately shared objects it is
 \* not comparable with a freshly built model, everything else is
@@ -360,6 +368,7 @@ Verdict(e) ==
      [] e.op = "b64poly"   -> EvB64Poly(e)
      [] e.op = "history"   -> EvHistory(e)
      [] e.op = "shared_build" -> EvSharedBuild(e)
+     [] e.op = "derive_poke" -> EvDerivePoke(e)
      [] e.op = "results_stable" -> Fail("result_stable", e.later = e.first)
      [] e.op = "l_evaluate" -> EvLEvaluate(e)
      [] e.op = "l_negate"  -> EvLNegate(e)
